@@ -59,6 +59,25 @@ def eval_case(case: dict) -> dict:
         core.use_repo_on_path()
         from harness import lib_buildalg as L
 
+        _deep_recursion()
+        with L.ambient(case.get("amb")):
+            return _eval_case(L, case, out)
+    except Exception as e:  # noqa: BLE001 - never let one case take the run down
+        import traceback
+
+        out["infra_error"] = f"{type(e).__name__}: {e}"[:300] + " | " + traceback.format_exc()[-400:]
+    return out
+
+
+def _deep_recursion():
+    import sys
+
+    if sys.getrecursionlimit() < 20000:
+        sys.setrecursionlimit(20000)  # dependency chains of > 1000 operators (the helpers here recurse)
+
+
+def _eval_case(L, case: dict, out: dict) -> dict:
+    try:
         try:
             pal = case.get("pal")
             if case["kind"] == "script":
@@ -91,6 +110,17 @@ def eval_case(case: dict) -> dict:
             for k, w in L.oracle(ap, o3):
                 if (k, w) not in out["oracle"]:
                     out["oracle"].append((k, "via spox.build: " + w))
+            # ... and so must `drop_unused_inputs=True` (no requested argument list: the main graph's
+            # arguments are whatever the traversal finds, through bodies of any depth)
+            o4 = L.observe_public(R, drop=True)
+            out["drop_same"] = bool(o4["ok"]) == (out["verdict"] == "ok")
+            out["drop_verdict"] = "ok" if o4["ok"] else str(o4.get("err"))
+            for k, w in L.oracle(ap, o4):
+                if (k, w) not in out["oracle"]:
+                    out["oracle"].append((k, "via spox.build(drop_unused_inputs=True): " + w))
+            if o4["ok"]:
+                got, want = L.kept_inputs(ap, o4["_model"])
+                out["drop_inputs"] = [got, want]
         if case.get("twin"):
             # the same abstract program through the low-level API must look the same to the Builder
             try:
@@ -155,6 +185,13 @@ def _history_requests(L, ap: dict, hseed: int) -> list[list[int]]:
     extra = rng.sample(inner, min(len(inner), rng.randrange(1, 3))) if inner else [rng.choice(elig)]
     single = [rng.choice(inner)] if inner and rng.random() < 0.7 else [rng.choice(elig)]
     reqs = [base, base + [e for e in extra if e not in base], single]
+    if hseed % 4 == 0:
+        # state after a failure: a request that must be rejected (an output depending on a body's own
+        # argument) is built FIRST over the same objects, then the legal requests
+        leaky = [n for n, nd in enumerate(ap["nodes"]) if not nd["a"] and nd["ty"] == "f" and not nd["s"]
+                 and not fa(n) <= main_args and n in reach]
+        if leaky:
+            reqs = [base + [rng.choice(leaky)]] + reqs
     out = []
     for r in reqs:
         if r not in out:
@@ -170,6 +207,8 @@ def eval_history(case: dict) -> dict:
         core.use_repo_on_path()
         from harness import lib_buildalg as L
         from spox import _graph
+
+        _deep_recursion()
 
         def realise():
             return L.realise_script(case["script"], pal=case.get("pal"))
@@ -195,6 +234,17 @@ def eval_history(case: dict) -> dict:
         except Exception as e:  # noqa: BLE001
             out["unrealisable"] = f"{type(e).__name__}: {str(e)[:100]}"
             return out
+        # programs built EARLIER in the same process over other objects (same value / node / body names):
+        # module-level state keyed by names or ids must not reach this program
+        for pre in case.get("before") or []:
+            try:
+                if "script" in pre and "main" not in pre:
+                    L.build_public(L.realise_script(pre["script"], pal=pre.get("pal", case.get("pal")), name_offset=pre.get("name_offset", 0)))
+                else:
+                    L.build_public(L.realise_script(pre, pal=case.get("pal")))
+                out["builds"] += 1
+            except Exception:  # noqa: BLE001
+                pass
         seqs = case.get("sequences")
         if seqs is None:
             reqs = _history_requests(L, R0.ap, case.get("hseed", 0))
@@ -216,7 +266,8 @@ def eval_history(case: dict) -> dict:
                     out["oracle"].append((
                         "history:" + okey,
                         f"after building {seq[:k]} over the same objects, request {req}: " + what,
-                        {"kind": "history", "script": case["script"], "sequences": [seq[: k + 1]], "pal": case.get("pal")},
+                        {"kind": "history", "script": case["script"], "sequences": [seq[: k + 1]], "pal": case.get("pal"),
+                         **({"before": case["before"]} if case.get("before") else {})},
                     ))
                 if summary != fresh[key] and out["history_dependent"] is None:
                     out["history_dependent"] = {
@@ -287,6 +338,40 @@ def _shape_stats(ap: dict) -> dict:
     return {"depth": depth, "ctrl_cross": cross}
 
 
+def _candidate(table: dict, key: str, size: int, case: dict, what: str, keep: int = 4):
+    """Per key: the `keep` smallest cases without and the `keep` smallest with a `before` list."""
+    pools = table.setdefault(key, ([], []))
+    lst = pools[1 if case.get("before") else 0]
+    lst.append((size, len(lst), case, what))
+    lst.sort(key=lambda t: t[:2])
+    del lst[keep:]
+
+
+def _isolated(fn, case: dict) -> dict:
+    """Evaluate one case in a fresh process that has built nothing before."""
+    try:
+        with mp.get_context("fork").Pool(1, maxtasksperchild=1) as pool:
+            return pool.apply(fn, (case,))
+    except Exception as e:  # noqa: BLE001
+        return {"infra_error": f"{type(e).__name__}: {e}"}
+
+
+def _confirmed(ck: core.Check, fn, key: str, pools: tuple) -> tuple:
+    """The workers evaluate thousands of programs per process; a failure caused by what a worker built
+    BEFORE (module-level state) does not replay from the case alone. Take the smallest candidate that
+    fails the same way in a fresh process (first those that stand alone, then those that carry their
+    own `before` programs); if none does, the failure is reported as a broken item, not as a failing
+    input (the cross-program histories are there to produce a self-contained one)."""
+    cands = sorted(pools[0], key=lambda t: t[:2]) + sorted(pools[1], key=lambda t: t[:2])
+    for _, _, case, what in cands:
+        r = _isolated(fn, case)
+        if key in [t[0] for t in r.get("oracle", [])]:
+            return case, what
+    _, _, case, what = cands[0]
+    ck.broken("correspondence", f"oracle failure {key} seen in a worker does not reproduce in a fresh process: it depends on what the process built before (hidden state across programs)", what[:300])
+    return None, what
+
+
 def gen_cases(ck: core.Check) -> tuple[list[dict], dict]:
     from harness import lib_buildgen as G
 
@@ -312,7 +397,7 @@ def gen_cases(ck: core.Check) -> tuple[list[dict], dict]:
             cases.append({"kind": "script", "script": sc, "descr": d, "family": "skeleton-k3"})
         stats["skeleton_k3_sampled"] = len(cases) - n0
     else:
-        for d, sc in G.skeletons(3, 2, rng, sample=700):
+        for d, sc in G.skeletons(3, 2, rng, sample=650 * (3 if getattr(ck, "escalated", False) else 1)):
             cases.append({"kind": "script", "script": sc, "descr": d, "family": "skeleton-k2"})
         stats["skeleton_k2_sampled"] = len(cases) - n0
         n0 = len(cases)
@@ -334,19 +419,37 @@ def gen_cases(ck: core.Check) -> tuple[list[dict], dict]:
     stats["cross_ctrl_output_sampled"] = len(cases) - n0
     # (ii) seeded random programs
     n0 = len(cases)
-    for i in range(ck.pick(2400, 12000)):
+    esc = 3 if getattr(ck, "escalated", False) and not ck.thorough else 1
+    for i in range(ck.pick(2100, 12000) * esc):
         leak_p = [0.0, 0.0, 0.05, 0.3][i % 4]
         sc = G.random_script(rng, rng.randrange(3, 28), leak_p)
         cases.append({"kind": "script", "script": sc, "family": f"random-leak{leak_p}"})
     stats["random_scripts"] = len(cases) - n0
+    # (iii) round 6: main inputs read only at depth >= 2 (all three entry points), wide argument /
+    # operand lists, dependency chains of > 1000 operators
+    n0 = len(cases)
+    for d, sc in G.deep_input_scripts():
+        cases.append({"kind": "script", "script": sc, "descr": d, "family": "deep-input"})
+    stats["deep_input_exhaustive_chains_of_2_3_bodies"] = len(cases) - n0
+    n0 = len(cases)
+    for w, nested in ((12, True), (12, False), (ck.pick(14, 30), True)):
+        cases.append({"kind": "script", "script": G.wide_script(w, nested), "family": "wide-lists"})
+    # (the model is cubic in the chain length: the long outer chain only in the thorough tier)
+    for ln, outer in ((1010, 40),) + (((40, 1010), (1100, None)) if ck.thorough else ()):
+        cases.append({"kind": "script", "script": G.long_chain_script(ln, outer), "family": "long-chain"})
+    stats["wide_and_long"] = len(cases) - n0
     for i, c in enumerate(cases):
         # operator kinds: every third case keeps the plain constructors, the others draw a palette
+        # (bit 3 of a palette: every application draws its own opset module v17..v21)
         if i % 3:
             c["pal"] = rng.randrange(1 << 20)
-        if i % 4 == 0:
+        if i % 4 == 0 and c["family"] != "long-chain":
             c["twin"] = True
-        if i % 8 == 3:
+        if i % 8 == 3 or c["family"] in ("deep-input", "wide-lists"):
             c["public"] = True
+        if i % 16 == 5:
+            # ambient scoped settings no verdict of the property may depend on
+            c["amb"] = rng.randrange(1 << 8)
     return cases, stats
 
 
@@ -363,6 +466,11 @@ def variant_cases(ck: core.Check, results: list[dict]) -> list[dict]:
     for r in pool[: ck.pick(160, 1500)]:
         for name, q in G.ap_variants(r["ap"], rng):
             out.append({"kind": "ap", "ap": q, "family": "variant:" + name})
+    for r in results:
+        if "ap" in r and r["case"].get("family") in ("deep-input", "wide-lists"):
+            # no requested argument list: the main graph takes what the traversal finds deep down
+            q = dict(r["ap"], graphs=[dict(r["ap"]["graphs"][0], args=None)] + r["ap"]["graphs"][1:])
+            out.append({"kind": "ap", "ap": q, "family": "variant:deep-args-unspecified", "pal": r["case"].get("pal")})
     return out
 
 
@@ -391,6 +499,24 @@ def run_history_cases(ck: core.Check, cases: list[dict]) -> list[dict]:
 def run(ck: core.Check, prove: bool = True):
     from harness import lib_buildalg as L
 
+    _deep_recursion()
+    # tie G: inventory of _build.py (functions, module-level names, class attributes, write sites, callees)
+    # regenerated from the source; Props/C04.lean proves it equal to what the model covers
+    try:
+        from translator import buildalg_facts
+
+        facts = buildalg_facts.generate()
+        if facts.get("opaque"):
+            ck.broken("translator", "_build.py not extractable", facts["opaque"])
+        ck.cov["generated_inventory"] = {k: len(facts[k]) for k in ("methods", "moduleNames", "classAttrs", "writes", "calls")}
+        ck.cov["covered_function_hashes"] = facts["hashes"]
+        ck.cov["covered_functions_changed"] = facts["changed_hashes"]
+        if facts["changed_hashes"]:
+            # not an obligation (harmless rewrites stay quiet): the run is escalated to larger counts
+            ck.escalated = True
+            ck.notes.append("normalised AST of covered functions changed: " + ", ".join(facts["changed_hashes"]) + " - counts escalated")
+    except Exception as e:  # noqa: BLE001
+        ck.broken("translator", "buildalg_facts not extractable", f"{type(e).__name__}: {e}")
     if prove:
         ck.lean(["SpoxModel.Props.C04"], audit="SpoxModel.Audit.C04")
         if ck.thorough:
@@ -420,36 +546,55 @@ def run(ck: core.Check, prove: bool = True):
     ck.log(f"{len(results)} programs realised and built with the real Builder")
 
     # --- multi-build histories over the same Python objects (oracle only)
-    hsrc = [c for c in cases if c["kind"] == "script"]
+    hsrc = [(j, c) for j, c in enumerate(cases) if c["kind"] == "script" and c.get("family") != "long-chain"]
     hrng = random.Random(ck.seed * 104729 + 7)
     hrng.shuffle(hsrc)
-    hcases = [{"kind": "history", "script": c["script"], "hseed": hrng.randrange(1 << 30), "family": c.get("family"), "pal": c.get("pal")}
-              for c in hsrc[: ck.pick(900, 9000)]]
+    hcases = []
+    for k, (j, c) in enumerate(hsrc[: ck.pick(900, 9000)]):
+        hc = {"kind": "history", "script": c["script"], "hseed": hrng.randrange(1 << 30), "family": c.get("family"), "pal": c.get("pal")}
+        if k % 3 == 1:
+            # another program of the same family (the neighbours in generation order: same scope tree,
+            # same value names, one placement changed) is built first in the same process
+            nb = [cases[i]["script"] for i in (j - 1, j + 1)
+                  if 0 <= i < len(cases) and cases[i]["kind"] == "script" and cases[i].get("family") == c.get("family")]
+            # ... and the SAME program under other value names (same operator kinds, node names, body
+            # names, opsets - different Python objects and value names): whatever a process-wide cache
+            # keyed by names or structure hands back is wrong for this program
+            hc["before"] = [{"script": c["script"], "name_offset": 1000}] + nb[:1]
+        hcases.append(hc)
     hresults = run_history_cases(ck, hcases)
     hstats = {"programs": len(hcases), "builds": sum(r["builds"] for r in hresults),
+              "after_other_programs_in_the_same_process": sum(1 for c in hcases if c.get("before")),
               "history_dependent_emission": sum(1 for r in hresults if r.get("history_dependent")),
               "unrealisable": sum(1 for r in hresults if "unrealisable" in r)}
     ck.cov["histories"] = hstats
+    ck.log(f"{hstats['builds']} history builds over {len(hcases)} programs")
     hdep = next((r for r in hresults if r.get("history_dependent")), None)
     if hdep is not None:
         ck.broken("correspondence",
                   f"the emission for a request depends on what was built before over the same objects ({hstats['history_dependent_emission']} programs)",
                   json.dumps({"script": hdep["case"]["script"], **hdep["history_dependent"]})[:1400])
-    hfails: dict[str, tuple[int, dict, str]] = {}
+    hfails: dict[str, list] = {}
     for r in hresults:
         for key, what, hcase in r["oracle"]:
-            size = len(json.dumps(hcase))
-            if key not in hfails or size < hfails[key][0]:
-                hfails[key] = (size, hcase, what)
+            _candidate(hfails, key, len(json.dumps(hcase)), hcase, what)
 
     infra = [r for r in results if "infra_error" in r] + [r for r in hresults if "infra_error" in r]
     if infra:
         ck.broken("correspondence", f"harness: {len(infra)} case(s) could not be evaluated", infra[0]["infra_error"])
     todo = [r for r in results if "ap" in r and "verdict" in r]
     try:
-        answers = ck.driver().ask_many("C04", [L.ap_for_model(r["ap"]) for r in todo])
+        def _req(r):
+            q = L.ap_for_model(r["ap"])
+            if r.get("drop_verdict") is not None and r["ap"]["graphs"][0]["args"] is not None:
+                # the model of `spox.build(..., drop_unused_inputs=True)` on the same program
+                q["pub_inputs"] = list(r["ap"]["graphs"][0]["args"])
+            return q
+
+        answers = ck.driver().ask_many("C04", [_req(r) for r in todo])
         if len(answers) != len(todo):
             raise RuntimeError(f"driver answered {len(answers)} of {len(todo)} requests")
+        ck.log(f"driver answered {len(answers)} requests")
     except Exception as e:  # noqa: BLE001
         ck.broken("correspondence", "C04 driver", str(e))
         answers = [None] * len(todo)
@@ -474,7 +619,7 @@ def run(ck: core.Check, prove: bool = True):
     mism = 0
     mism_by: dict[str, int] = {}
     unobs_first: dict[str, str] = {}
-    fails: dict[str, tuple[int, dict, str]] = {}
+    fails: dict[str, list] = {}
 
     def mismatch(which: str, ap, real, model):
         nonlocal mism
@@ -522,6 +667,15 @@ def run(ck: core.Check, prove: bool = True):
                     want = "ok" if m.get("ok") else str(m.get("err"))
                     if want != r["internal_verdict"]:
                         mismatch("error-class of build_main", ap, r["internal_verdict"], want)
+                if m.get("pub") is not None:
+                    # `publicBuild p inputs true` vs the real `spox.build(..., drop_unused_inputs=True)`
+                    stats["facets_compared"]["public_build_drop"] = stats["facets_compared"].get("public_build_drop", 0) + 1
+                    pm = m["pub"]
+                    pverd = ("ok" if pm.get("struct_ok") else "Validation") if pm.get("ok") else str(pm.get("err"))
+                    if pverd != r["drop_verdict"]:
+                        mismatch("publicBuild (drop_unused_inputs=True): error class", ap, r["drop_verdict"], pverd)
+                    elif pm.get("ok") and r.get("drop_inputs") is not None and pm.get("inputs") != r["drop_inputs"][0]:
+                        mismatch("publicBuild (drop_unused_inputs=True): model inputs", ap, r["drop_inputs"][0], pm.get("inputs"))
                 if m.get("ok"):
                     # the bridge to C01's program model, evaluated by the driver on this case:
                     # the emission rendered as a Prog.EGraph is the same emission, the translated
@@ -546,6 +700,16 @@ def run(ck: core.Check, prove: bool = True):
                         stats["facets_compared"]["trace"] = stats["facets_compared"].get("trace", 0) + 1
                         if L.drop_initializers(ap, mf["trace"]) != r["trace"]:
                             mismatch("trace", ap, r["trace"], mf["trace"])
+                        # `placed` (theorems placed_in_scope / emitted_in_least_enclosing): position of every
+                        # emitted vertex in the real proto = the model's `placed` = the model's scope_of
+                        inits = {n for n, nd in enumerate(ap["nodes"]) if nd["k"] == "init"}
+                        mp_ = sorted([v, g] for v, g in m.get("placed", []) if v not in inits)
+                        stats["facets_compared"]["placed"] = stats["facets_compared"].get("placed", 0) + 1
+                        if mp_ != sorted(L.placed_from_trace(r["trace"])):
+                            mismatch("placed", ap, sorted(L.placed_from_trace(r["trace"])), mp_)
+                        so_ = {v: g for v, g in mf["scope_of"]}
+                        if any(so_.get(v) != g for v, g in m.get("placed", [])):
+                            mismatch("placed vs scope_of (instance of placed_in_scope)", ap, None, m.get("placed"))
                     for facet, val in r["facets"].items():
                         stats["facets_compared"][facet] = stats["facets_compared"].get(facet, 0) + 1
                         if mf[facet] != val:
@@ -556,9 +720,21 @@ def run(ck: core.Check, prove: bool = True):
             mismatch("callback realisation vs low-level realisation of the same abstract program", ap, r["twin_same"], None)
         # --- oracle verdicts
         for key, what in r["oracle"]:
-            size = L.ap_size(ap)
-            if key not in fails or size < fails[key][0]:
-                fails[key] = (size, r["case"], what)
+            _candidate(fails, key, L.ap_size(ap), r["case"], what)
+        if r.get("drop_same") is False:
+            mismatch("spox.build(drop_unused_inputs=True) vs Graph.to_onnx_model: different verdict", ap, None, None)
+        if r.get("drop_inputs") is not None:
+            stats["drop_unused_inputs_builds"] = stats.get("drop_unused_inputs_builds", 0) + 1
+            got, want = r["drop_inputs"]
+            stats["drop_unused_inputs_dropped_some"] = stats.get("drop_unused_inputs_dropped_some", 0) + int(len(want) < len(ap["graphs"][0]["args"] or []))
+            if got != want:
+                mismatch("drop_unused_inputs=True: model inputs vs the main arguments some output depends on", ap, got, want)
+        if fam == "deep-input" and r["verdict"] == "ok":
+            stats["main_input_read_only_at_depth>=2"] = stats.get("main_input_read_only_at_depth>=2", 0) + 1
+        if r["case"].get("amb") is not None:
+            stats["under_ambient_settings"] = stats.get("under_ambient_settings", 0) + 1
+        if r["case"].get("pal") is not None and (r["case"]["pal"] >> 3) & 7 == 7:
+            stats["mixed_opset_modules"] = stats.get("mixed_opset_modules", 0) + 1
     for facet, n in stats["facets_unobservable"].items():
         ck.broken("correspondence", f"{facet} not observable on {n} case(s): the Builder's internals changed shape", unobs_first[facet])
     if stats["wf_false"]:
@@ -567,12 +743,19 @@ def run(ck: core.Check, prove: bool = True):
     ck.cov["correspondence_mismatches_by_facet"] = mism_by
     ck.cov["stats"] = stats
     ck.exhaustive = False
-    for key, (_, case, what) in sorted(fails.items()):
+    for key, cands in sorted(fails.items()):
+        case, what = _confirmed(ck, eval_case, key, cands)
+        if case is None:
+            continue
         ck.failure(key, what, case, how="realise the case (script: if_/loop callbacks; ap: low-level Graph API), build, inspect the ModelProto")
-    for key, (_, case, what) in sorted(hfails.items()):
+    for key, cands in sorted(hfails.items()):
         # a well-scoped program rejected / a model with duplicated or misplaced nodes after an earlier
-        # build over the same objects: the same property failure, reached through a history
-        ck.failure(key, what, case, how="realise the script once, build the listed requests in order over the same objects, inspect each ModelProto")
+        # build over the same objects (or after other programs in the same process): the same property
+        # failure, reached through a history
+        case, what = _confirmed(ck, eval_history, key, cands)
+        if case is None:
+            continue
+        ck.failure(key, what, case, how="build the `before` programs, realise the script once, build the listed requests in order over the same objects, inspect each ModelProto")
     ck.log(f"correspondence mismatches: {mism} {mism_by}; unobservable: {stats['facets_unobservable']}; oracle failure kinds: {sorted(fails) + sorted(hfails)}; histories: {hstats}")
 
 
